@@ -61,6 +61,57 @@ def step_logdet_ob():
               f"{A_}::{cls}.get_lb_log_det", group="lb-logdet")
 
 
+def step_quadratic_ob():
+    """step link, scalar input (the `Dx == 1` branch): the heteroscedastic part of the quadratic term of integrate_log_conditional_y is
+    exact,  1/2 E_n[ 1(h >= 0) (a'(y_n - M x - b))^2 ],  h = w x + w0,  x ~ N(mu_n, s_n^2).
+    Reference in the h-domain with the textbook one-sided truncated moments  Z = Phi(z), E[h;h>=0] = m_h Phi(z) + s_h phi(z),
+    E[h^2;h>=0] = (m_h^2 + s_h^2) Phi(z) + m_h s_h phi(z),  z = m_h / s_h,  and x = (h - w0) / w."""
+    cls = "HeteroscedasticHeavisideConditional"
+
+    def run():
+        from ..nf import Val
+        from ..dim import D
+        from ..intrinsics import elementwise_inf
+        nf.ST.generic_nonzero = True
+        I = build.new_interp()
+        Dy, Dk, Da, N = sym("Dy"), sym("Dk"), sym("Da"), sym("N")
+        Dx = D(1)
+        c = I.construct(cls, dict(M=nf.atom("M(c)", [1, Dy, Dx]), b=nf.atom("b(c)", [1, Dy]), A=nf.atom("A(c)", [1, Dy, Da]), W=nf.atom("W(c)", [Dk, Dx + 1])))
+        px = build.pdf(I, N, Dx, "px")
+        y = build.points("y", N, Dy)
+        Wi, ai = nf.atom("W_i", [Dx + 1]), nf.atom("a_i", [Dy])
+        got = I.call_method(c, "get_lb_heteroscedastic_term_i", [px, y, Wi, ai])
+        if not isinstance(got, Val) or [str(x) for x in got.shape] != ["1", str(N)]:
+            from ..core import Refuted
+            raise Refuted(f"get_lb_heteroscedastic_term_i returns shape {getattr(got, 'shape', None)} (expected [1, N])", f"{A_}::{cls}.get_lb_heteroscedastic_term_i")
+        w0 = Val([], nf.slice_axis(Wi, 0, 0, 1).terms)
+        w = Val([], nf.slice_axis(Wi, 0, 1, 2).terms)
+        mu = Val(px.f["mu"].axes[:1], px.f["mu"].terms)
+        S = Val(px.f["Sigma"].axes[:1], px.f["Sigma"].terms)
+        M1 = Val([c.f["M"].axes[1]], c.f["M"].terms)
+        b1 = Val([c.f["b"].axes[1]], c.f["b"].terms)
+        m = nf.einsum("y,y->", ai, M1)
+        c0 = nf.add(nf.einsum("y,ny->n", ai, y), nf.einsum("y,y->", ai, b1), -1)
+        mh = nf.add(nf.mul(w, mu), w0)
+        sh2 = nf.mul(nf.mul(w, w), S)
+        sh = nf.elementwise("Sqrt", sh2)
+        z = nf.mul(mh, nf.elementwise("Sqrt", nf.elementwise("Recip", sh2)))
+        Ph, ph = elementwise_inf("Phi", z), elementwise_inf("phi", z)
+        Eh = nf.add(nf.mul(mh, Ph), nf.mul(sh, ph))
+        Eh2 = nf.add(nf.mul(nf.add(nf.mul(mh, mh), sh2), Ph), nf.mul(nf.mul(mh, sh), ph))
+        fr = nf.mul(m, nf.elementwise("Recip", w))
+        C = nf.add(c0, nf.mul(fr, w0))
+        ref = nf.scale(nf.add(nf.add(nf.mul(nf.mul(C, C), Ph), nf.scale(nf.mul(nf.mul(C, fr), Eh), -2)), nf.mul(nf.mul(fr, fr), Eh2)), D(1) / 2)
+        g = Val(got.axes[1:], got.terms)
+        d = nf.diff(g, ref, what="1/2 E[1(h>=0) (a'(y - Mx - b))^2]")
+        if d and nf.zero_mod_recip(nf.add(g, ref, -1)):
+            d = []
+        return d, dict(funcs=funcs_of(I))
+    return Ob(f"lb-quadratic/{cls}/Dx=1", run,
+              "step link, Dx = 1: get_lb_heteroscedastic_term_i == 1/2 E_n[1(h>=0) (a'(y_n - Mx - b))^2] (exact; truncated-normal moments of h = w x + w0, x = (h - w0)/w)",
+              f"{A_}::{cls}.get_lb_heteroscedastic_term_i", group="lb-quadratic")
+
+
 def obligations(tier):
     obs = []
     for cls in CLASSES:
@@ -70,6 +121,7 @@ def obligations(tier):
         obs.append(ob)
         obs.append(coherence_ob(cls))
     obs.append(step_logdet_ob())
+    obs.append(step_quadratic_ob())
     return obs
 
 
